@@ -90,3 +90,203 @@ class C19(Prop):
 PROPS = {
     "C19": C19(),
 }
+
+
+# ----------------------------------------------------------------------------- C01
+
+def f64bits(x):
+    return "%016x" % struct.unpack(">Q", struct.pack(">d", x))[0]
+
+
+class C01(Prop):
+    rule = ("specification expression trees, printed by the extracted Coq printer with a layout (separators from "
+            "{SP, LF, TAB, SP SP, CRLF, ...}, random redundant parentheses) and evaluated by the extracted semantics: "
+            "(a) every ordered pair of the 19 operator forms (11 binary, ternary, 2 prefix, 2 postfix, index, property, "
+            "call) in every operand slot; (b) triples: all chains and forks (thorough) or a seeded sample (quick); "
+            "(c) random typed trees to depth 5; (d) the same trees as the right-hand side of an assignment; "
+            "(e) integer boundary operands and out-of-range literals. Non-trivial: at least two operators; "
+            "distinct = distinct rendered source + data.")
+    explanation = ("Theorems: Go's binding-power table read from parser.go is a strictly monotone image of the "
+                   "property's levels; the Pratt parser model parses the printer's output back to the tree "
+                   "(round-trip, for the binary/prefix/ternary/parenthesis fragment with any redundant parentheses); "
+                   "wrap64/quot/rem facts. Correspondence: model = implementation on every case. Oracle: "
+                   "implementation output = text of sem(tree), error iff sem says error.")
+    assumptions = ["floats are dyadic rationals with short decimal expansions (others are counted as unmodelled)",
+                   "the meaning of built-in calls inside expressions is taken from the built-in model (C11's subject)"]
+
+    BIN = ["add", "sub", "mul", "div", "mod", "eq", "ne", "lt", "gt", "le", "ge"]
+    FORMS = BIN + ["tern", "neg", "not", "inc", "dec", "idx", "prop", "call"]
+    DATA = {
+        "x": "(int 7)", "y": "(int 2)", "z": "(int 3)", "w": "(int 0)",
+        "big": "(int 9223372036854775807)", "small": "(int -9223372036854775808)",
+        "f": "(f64 %s)" % f64bits(1.5), "g": "(f64 %s)" % f64bits(0.25), "h": "(f64 %s)" % f64bits(-2.0),
+        "s": "(str %s)" % hx("ab"), "t": "(str %s)" % hx(""), "b": "(bool 1)", "c": "(bool 0)", "n": "(nil)",
+        "a": "(slice (int 5) (int 6) (int 7))", "e": "(slice)",
+        "o": "(map (%s (int 4)) (%s (str %s)))" % (hx("k"), hx("Name"), hx("bob")),
+    }
+
+    def data(self):
+        return "(" + " ".join("(%s %s)" % (hx(k), v) for k, v in self.DATA.items()) + ")"
+
+    def nslots(self, f):
+        return 2 if f in self.BIN or f == "idx" else 3 if f == "tern" else 1
+
+    def leaf(self, rng, f, slot):
+        ints = ["(int 7)", "(int 2)", "(int 3)", "(var x)", "(var y)", "(var z)", "(int 1)"]
+        if f == "not":
+            return rng.choice(["(bool 1)", "(bool 0)", "(var b)", "(nil)"])
+        if f == "idx" and slot == 0:
+            return rng.choice(["(var a)", "(arr (int 5) (int 6) (int 7))"])
+        if f == "idx" and slot == 1:
+            return rng.choice(["(int 0)", "(int 1)", "(int 2)", "(var y)"])
+        if f == "prop":
+            return "(var o)"
+        if f == "call":
+            return rng.choice(["(var s)", "(var a)", "(var x)"])
+        if f == "tern" and slot == 0:
+            return rng.choice(["(bool 1)", "(bool 0)", "(var w)", "(var x)", "(var t)"])
+        return rng.choice(ints)
+
+    def build(self, f, kids):
+        if f in self.BIN:
+            return "(bin %s %s %s)" % (f, kids[0], kids[1])
+        if f == "tern":
+            return "(tern %s %s %s)" % tuple(kids)
+        if f in ("neg", "not", "inc", "dec"):
+            return "(%s %s)" % (f, kids[0])
+        if f == "idx":
+            return "(idx %s %s)" % (kids[0], kids[1])
+        if f == "prop":
+            return "(prop %s k)" % kids[0]
+        if f == "call":
+            return "(call %s %s)" % (kids[0], "len" if "s)" in kids[0] or "a)" in kids[0] or "arr" in kids[0] else "abs")
+        raise ValueError(f)
+
+    def tree(self, rng, forms_at):
+        """forms_at: nested spec (form, {slot: subtree-spec})"""
+        f, sub = forms_at
+        kids = []
+        for s in range(self.nslots(f)):
+            if s in sub:
+                kids.append(self.tree(rng, sub[s]))
+            else:
+                kids.append(self.leaf(rng, f, s))
+        return self.build(f, kids)
+
+    def rand_tree(self, rng, d, ty):
+        r = rng.random()
+        if d <= 0 or r < 0.25:
+            return {"int": rng.choice(["(int 7)", "(int 2)", "(int 3)", "(int 0)", "(int 1)", "(var x)", "(var y)", "(var big)",
+                                       "(var small)", "(int 9223372036854775807)", "(var w)"]),
+                    "float": rng.choice(["(float 15 1)", "(float 25 2)", "(float 20 1)", "(var f)", "(var g)", "(var h)", "(float 5 1)"]),
+                    "str": rng.choice(["(str %s 1)" % hx("a<b"), "(str %s 0)" % hx("it's"), "(var s)", "(var t)", "(str %s 1)" % hx("q\"x"),
+                                       "(str - 1)", "(str %s 0)" % hx("h\xc3\xa9&"), ]),
+                    "bool": rng.choice(["(bool 1)", "(bool 0)", "(var b)", "(var c)", "(nil)", "(var n)"]),
+                    "any": rng.choice(["(int 4)", "(var x)", "(var s)", "(var f)", "(var b)", "(var a)", "(var o)", "(nil)", "(var nope)"])}[ty]
+        sub = lambda t: self.rand_tree(rng, d - 1, t)
+        if ty == "int":
+            k = rng.random()
+            if k < 0.55:
+                return "(bin %s %s %s)" % (rng.choice(["add", "sub", "mul", "div", "mod"]), sub("int"), sub("int"))
+            if k < 0.65:
+                return "(neg %s)" % sub("int")
+            if k < 0.75:
+                return "(%s %s)" % (rng.choice(["inc", "dec"]), sub("int"))
+            if k < 0.85:
+                return "(tern %s %s %s)" % (sub(rng.choice(["bool", "int", "str", "float"])), sub("int"), sub("int"))
+            if k < 0.9:
+                return "(idx (var a) %s)" % sub("int")
+            if k < 0.95:
+                return "(prop (var o) k)"
+            return "(call %s len)" % sub("str")
+        if ty == "float":
+            k = rng.random()
+            if k < 0.6:
+                return "(bin %s %s %s)" % (rng.choice(["add", "sub", "mul"]), sub("float"), sub("float"))
+            if k < 0.7:
+                return "(neg %s)" % sub("float")
+            if k < 0.8:
+                return "(%s %s)" % (rng.choice(["inc", "dec"]), sub("float"))
+            return "(tern %s %s %s)" % (sub("bool"), sub("float"), sub("float"))
+        if ty == "str":
+            k = rng.random()
+            if k < 0.7:
+                return "(bin add %s %s)" % (sub("str"), sub("str"))
+            return "(tern %s %s %s)" % (sub("bool"), sub("str"), sub("str"))
+        if ty == "bool":
+            k = rng.random()
+            t = rng.choice(["int", "int", "float", "str"])
+            if k < 0.6:
+                ops = ["eq", "ne"] if t == "str" else ["eq", "ne", "lt", "gt", "le", "ge"]
+                return "(bin %s %s %s)" % (rng.choice(ops), sub(t), sub(t))
+            if k < 0.8:
+                return "(not %s)" % sub("bool")
+            return "(tern %s %s %s)" % (sub("bool"), sub("bool"), sub("bool"))
+        # any: untyped mixing, most of it fails - kept small
+        f = rng.choice(self.FORMS)
+        kids = [sub(rng.choice(["int", "float", "str", "bool", "any"])) for _ in range(self.nslots(f))]
+        return self.build(f, kids)
+
+    def layout(self, rng, n):
+        parens = "".join("1" if rng.random() < 0.15 else "0" for _ in range(n))
+        seps = ",".join(str(rng.randrange(8)) for _ in range(n * 3))
+        return parens, seps
+
+    def generate(self, rng, tier):
+        data = hx(self.data())
+        trees = []
+        for f1 in self.FORMS:
+            for s1 in range(self.nslots(f1)):
+                for f2 in self.FORMS:
+                    trees.append(self.tree(rng, (f1, {s1: (f2, {})})))
+        npairs = len(trees)
+        triples = []
+        for f1 in self.FORMS:
+            for s1 in range(self.nslots(f1)):
+                for f2 in self.FORMS:
+                    for s2 in range(self.nslots(f2)):
+                        for f3 in self.FORMS:
+                            triples.append((f1, {s1: (f2, {s2: (f3, {})})}))
+            if self.nslots(f1) >= 2:
+                for sa in range(self.nslots(f1)):
+                    for sb in range(sa + 1, self.nslots(f1)):
+                        for f2 in self.FORMS:
+                            for f3 in self.FORMS:
+                                triples.append((f1, {sa: (f2, {}), sb: (f3, {})}))
+        ntri_all = len(triples)
+        if tier != "thorough":
+            rng.shuffle(triples)
+            triples = triples[: 4000 if tier == "quick" else 8000]
+        for t in triples:
+            trees.append(self.tree(rng, t))
+        nrand = {"quick": 3000, "thorough": 40000, "search": 10000}[tier]
+        for _ in range(nrand):
+            ty = rng.choice(["int", "int", "int", "float", "str", "bool", "any"])
+            trees.append(self.rand_tree(rng, rng.choice([2, 3, 4, 5]), ty))
+        # boundary arithmetic
+        for op in self.BIN:
+            for a in ["(var big)", "(var small)", "(int 9223372036854775807)", "(neg (int 1))", "(int 0)"]:
+                for b in ["(var big)", "(var small)", "(neg (int 1))", "(int 0)", "(int 2)"]:
+                    trees.append("(bin %s %s %s)" % (op, a, b))
+        trees += ["(int 9223372036854775808)", "(neg (int 9223372036854775808))", "(int 99999999999999999999)",
+                  "(bin add (int 1) (int 9223372036854775808))"]
+        lines = []
+        for i, t in enumerate(trees):
+            n = t.count("(")
+            parens, seps = self.layout(rng, n)
+            kind = "xassign" if (i % 7 == 3) else "xexpr"
+            lines.append("\t".join(["C01:%d" % i, kind, hx(t), hx(parens), hx(seps), data]))
+        dist = collections.Counter()
+        for t in trees:
+            n = t.count("(bin") + t.count("(tern") + t.count("(neg") + t.count("(not") + t.count("(inc") + t.count("(dec") \
+                + t.count("(idx") + t.count("(prop") + t.count("(call")
+            dist["operators=%s" % (n if n < 4 else "4+")] += 1
+        return lines, {"exhaustive": False, "distribution": dict(dist),
+                       "pairs": npairs, "triples_enumerated": len(triples), "triples_total": ntri_all}
+
+    def nontrivial(self, r):
+        f = r["case"].split("\t")
+        return len(f) > 2 and f[2].count("20") >= 4   # at least a few separators, i.e. several tokens
+
+
+PROPS["C01"] = C01()
